@@ -3,11 +3,11 @@ FMT = "Diagnostic text is outside the claim (core::fmt::write stubbed) unless th
 MODEL = "Option/resource maps are the fixed-capacity array model of /verif/engine/verif_alloc (differentially tested against std in setup; off in replay) unless the harness says it runs on std's containers. "
 
 claim("C01",
-      "The encoder is cut along its loop and every piece is decided symbolically against the RFC 7252 section 3.1 reference image: header/token (all first bytes, codes, ids, token 0..8), payload marker rule for all types, one option with every number (values of 1 and 13 bytes) and with every value length 0..300 (number 258), two options with every pair n1<n2, a repeated number, clear/re-add, public add_option with the higher number first; more lengths / numbers / orders and three options in the thorough tier. The decode direction is C03; together they give decode(encode(m)) = m inside both bounds.",
-      MODEL + FMT + "More than 3 distinct option numbers, value contents beyond one symbolic byte pattern, and the ordering done by std's BTreeMap are outside.",
+      "The encoder is cut along its loop and every piece is decided symbolically against the RFC 7252 section 3.1 reference image: header/token (all first bytes, codes, ids, token 0..8), payload marker rule for all types, one option with every number (values of 1 and 13 bytes) and with every value length 0..300 (number 258), two options with every pair n1<n2, a repeated number, clear/re-add, public add_option with the higher number first; more lengths / numbers / orders in the thorough tier. The decode direction is C03; together they give decode(encode(m)) = m inside both bounds.",
+      MODEL + FMT + "More than 2 distinct option numbers, value contents beyond one symbolic byte pattern, a symbolic number together with a symbolic length, and the ordering done by std's BTreeMap are outside.",
       "Kani/CBMC bounded model checking of to_bytes_internal against an RFC-derived reference encoder", "DESIGN.md section 3 C01")
 claim("C02",
-      "Composition (D) C03 framing equality of every accepted datagram up to 6 bytes (7 thorough) with the reference parse and content equality on single-option layouts + (E) C01 exact image of every structured message, plus direct parse->serialise queries on concrete layouts with all free bits symbolic (one option with extended delta and payload; lone trailing marker; payload of a 0.00 message; all four types).",
+      "Composition (D) C03 framing equality of every accepted datagram up to 6 bytes (7 thorough) with the reference parse and content equality on single-option layouts + (E) C01 exact image of every structured message, plus direct parse->serialise queries on concrete layouts with all free bits symbolic (one option with extended delta and payload; lone trailing marker; payload of a 0.00 message; first bytes are constants).",
       MODEL + FMT + "The direct query over every byte string does not fit (out of memory at 6 bytes); the general claim rests on the composition and on the uniqueness of the RFC 7252 delta/length encoding.",
       "Kani/CBMC bounded model checking; composition of C03 and C01 plus direct re-encode on concrete layouts", "DESIGN.md section 3 C02")
 claim("C03",
